@@ -178,7 +178,7 @@ class Parser:
         if t.kind != "id":
             self.fail("expected statement")
         u = t.up
-        if u == "SELECT":
+        if u in ("SELECT", "WITH"):
             return self.select_stmt()
         if u == "INSERT":
             return self.insert_stmt()
@@ -407,6 +407,24 @@ class Parser:
 
     # ---- SELECT ---------------------------------------------------------------------------------
     def select_stmt(self):
+        if self.at_kw("WITH"):
+            # common table expressions: WITH name AS (select) [, name AS (select)]* select
+            self.i += 1
+            if self.at_kw("RECURSIVE"):
+                self.fail("WITH RECURSIVE")
+            ctes = []
+            while True:
+                name = self.ident()
+                self.expect_kw("AS")
+                self.expect_op("(")
+                sub = self.select_stmt()
+                self.expect_op(")")
+                ctes.append((name, sub))
+                if not self.accept_op(","):
+                    break
+            body = self.select_stmt()
+            body["with"] = ctes + list(body.get("with", []))
+            return body
         first = self.select_core()
         parts = [first]
         alls = []
@@ -554,7 +572,7 @@ class Parser:
     def table_ref(self):
         lateral = bool(self.accept_kw("LATERAL"))
         if self.accept_op("("):
-            if self.at_kw("SELECT") or self.at_op("("):
+            if self.at_kw("SELECT", "WITH") or self.at_op("("):
                 sel = self.select_stmt()
                 self.expect_op(")")
                 self.accept_kw("AS")
@@ -608,7 +626,12 @@ class Parser:
             if self.accept_kw("ON"):
                 on = self.expr()
             elif self.accept_kw("USING"):
-                self.fail("USING not supported")
+                self.expect_op("(")
+                ucols = [self.ident()]
+                while self.accept_op(","):
+                    ucols.append(self.ident())
+                self.expect_op(")")
+                on = ("using", ucols)
             items.append((jt, ref, on))
         return items
 
